@@ -22,6 +22,13 @@ BUILT: dict[str, dict[str, str]] = {
         note="Trusts fractions.Fraction and the two oracle implementations (cross-checked against each other on small cases); finite reference points only.",
         ref="DESIGN.md 3/C15",
     ),
+    "C18": dict(
+        technique="property-based testing (Hypothesis): generated (a, b, q, x, loc, scale) and mixtures, differential against mpmath (60 digits) and SciPy, probability-space quantile check, quadrature / exact-sum normalisation",
+        category="exploration",
+        text="Generated-input search concentrated on the kernels' branch points, far tails (|a|,|b|<=100) and narrow intervals (width>=1e-8); every output compared with a 60-digit reference under a stated, calibrated tolerance; membership of quantiles/samples in the interval is exact. Absence of counterexamples in the explored region only.",
+        note="Trusts mpmath and SciPy as references; tolerances calibrated on the unchanged tree (max observed errors are in the evidence).",
+        ref="DESIGN.md 3/C18",
+    ),
 }
 
 NOT_YET: dict[str, str] = {}
